@@ -6,7 +6,6 @@ import (
 	"github.com/Vedant9500/WTF/internal/database"
 	"math/rand"
 	"sort"
-	"strings"
 	"sync"
 	"time"
 	"unsafe"
